@@ -95,9 +95,9 @@ impl Display for Variant<'_> {
             Self::Variable(variable, _) => write!(f, "{variable}"),
             Self::Lambda(variable, implicit, domain, body) => {
                 if *implicit {
-                    write!(f, "{{{variable} : {domain}}} => {body}")
+                    write!(f, "{{{variable} : {}}} => {body}", annotation(domain))
                 } else {
-                    write!(f, "({variable} : {domain}) => {body}")
+                    write!(f, "({variable} : {}) => {body}", annotation(domain))
                 }
             }
             Self::Pi(variable, implicit, domain, codomain) => {
@@ -106,9 +106,9 @@ impl Display for Variant<'_> {
 
                 if variables.contains(&0) {
                     if *implicit {
-                        write!(f, "{{{variable} : {domain}}} -> {codomain}")
+                        write!(f, "{{{variable} : {}}} -> {codomain}", annotation(domain))
                     } else {
-                        write!(f, "({variable} : {domain}) -> {codomain}")
+                        write!(f, "({variable} : {}) -> {codomain}", annotation(domain))
                     }
                 } else if *implicit {
                     write!(f, "{{{domain}}} -> {codomain}")
@@ -159,6 +159,23 @@ impl Display for Variant<'_> {
                 write!(f, "if {condition} then {then_branch} else {else_branch}")
             }
         }
+    }
+}
+
+// Convert the type annotation of a binder to a string. The grammar does not allow a let there, so a
+// let is parenthesized.
+fn annotation(term: &Term) -> String {
+    match &term.variant {
+        Variant::Unifier(subterm, _) => {
+            // We `clone` the borrowed `subterm` to avoid holding the dynamic borrow for too long.
+            if let Some(subterm) = { subterm.borrow().clone() } {
+                annotation(&subterm)
+            } else {
+                format!("{term}")
+            }
+        }
+        Variant::Let(_, _) => format!("({term})"),
+        _ => format!("{term}"),
     }
 }
 
